@@ -72,6 +72,20 @@ POSITIONS = [
     ("multi-line-string-line-3", "k = 'a\n\n{c}'\n", 4, "any"),
     ("multi-line-comment-line-2", "/* a\n b{c} */ k = 1\n", 0, "comment"),
     ("after-end", "k = 1\nEND\n{c}{c} junk", None, "after-end"),
+    ("immediately-after-end", "k = 1\nEND{c}junk", None, "after-end-forbidden-only"),
+    # a stray character in the gaps of block statements, sequences and units
+    ("after-begin-keyword", "GROUP {c}= g\n k = 1\nEND_GROUP\n", 6, "any"),
+    ("after-begin-equals", "GROUP = {c} g\n k = 1\nEND_GROUP\n", 8, "any"),
+    ("after-block-name", "GROUP = g {c}\n k = 1\nEND_GROUP\n", 10, "any"),
+    ("after-end-keyword", "GROUP = g\n k = 1\nEND_GROUP {c} j = 2\n", 27, "any"),
+    ("after-end-keyword-equals", "OBJECT = g\n k = 1\nEND_OBJECT = {c}g\n", 31, "any"),
+    ("after-name", "k {c}= 1\nj = 2\n", 2, "any"),
+    ("after-equals", "k = {c} 1\nj = 2\n", 4, "any"),
+    ("in-sequence", "k = (1, {c} 2)\nj = 2\n", 8, "any"),
+    ("after-sequence", "k = (1, 2) {c}\nj = 2\n", 11, "any"),
+    ("before-units", "k = 1 {c} <m>\nj = 2\n", 6, "any"),
+    ("after-delimiter", "k = 1; {c}\nj = 2\n", 7, "any"),
+    ("before-end", "k = 1\n{c} END\n", 6, "any"),
 ]
 
 
@@ -104,6 +118,10 @@ def check(d, posname, o):
     if d == "OMNI" and re.search(r"-[\n\r\f]", text):
         return out, "skip"
     r = loaders.outcome(d, text)
+    if demand == "after-end-forbidden-only":
+        if allowed:
+            return out, "skip"
+        demand = "after-end"
     if demand == "after-end":
         if r[0] != "ok" or [(k, v) for k, v in r[1]] != [("k", 1)]:
             out.append({"case": case, "diagnosis": "text-after-END-matters:" + d,
